@@ -27,7 +27,7 @@ DT = ["int", "float", "complex", "bool", "str"]
 ATTRS = [None, {"n": None}, {"t": True, "f": False},
          {"i": 3, "x": 2.5, "s": "text"},
          {"zero": 0, "one": 1, "fone": 1.0, "fzero": 0.0, "t": True}]
-NAMES = ["x", "x.h5", "x.dmp", os.path.join("dir.v2", "x")]
+NAMES = ["x", "x.h5", "x.dmp", os.path.join("dir.v2", "x"), "x_g0.5"]
 
 
 def cases(tier, seed):
